@@ -1,4 +1,5 @@
-import Swat4.Model.Browsing
+import Swat4.Lemmas.Browsing
+import Swat4.Properties.C02
 import Swat4.Spec.ServerList
 import Swat4.Spec.ServerListExpected
 import Swat4.Gen.Facts
@@ -20,5 +21,54 @@ theorem facts_ok :
     9 ≤ Facts.browsingMinRequestPayloadLength ∧ Facts.browsingMaxAllowedNumberOfFields ≤ 255 ∧
     (∀ f ∈ Facts.browsingQueryFields, f ≠ [] ∧ ∀ x ∈ f, x ≠ 0 ∧ x ≠ 0x5c) ∧
     (∀ e ∈ Facts.browsingInfoSchema, e.2 ≤ 2) ∧ (Facts.browsingInfoSchema.map (·.1)).Nodup := by decide
+
+
+/-- **Decoding the packed list, any schema.**  For at most 255 NUL-free field names and servers none
+of which carries the SDK's end-marker address, the SDK decoder applied to `packServers`' bytes
+returns the requester's IPv4 and `port % 65536`, the declared fields in order, and one entry per
+server *whose `Info` marshals* (`packServers` skips the others), in order — IPv4, `uint16` of the
+query port, and per declared field the marshalled value with NUL bytes dropped (empty if the map
+lacks the field) — followed by the end marker and nothing else. -/
+theorem sdkDecode_pack_marshalled (schema : Schema) (client : Client) (fields : List Bytes) (servers : List Server)
+    (defaultPort : Nat) (hf : fields.length ≤ 255) (hn : ∀ f ∈ fields, NulFree f)
+    (hip : ∀ s ∈ servers, s.ip.toBytes ≠ lastServerMarker) :
+    sdkDecode (packServers schema client fields servers) defaultPort =
+      some { clientIp := client.ip.toBytes, clientPort := client.port % 65536, fields := fields, entries := (servers.filterMap (prepare schema)).map (entryOfPrepared fields), trailing := [] } :=
+  sdkDecode_packServers schema client fields servers defaultPort hf hn hip
+
+/-- **Decoding the packed list.**  If moreover parameter names are distinct and every record has
+the types its schema declares (Go's typing), the decoded list is exactly `expectedList`: one entry
+per server with the stored value of every declared field (integers in decimal, booleans `0`/`1`,
+empty for a field the record lacks, NUL bytes dropped). -/
+theorem sdkDecode_pack (schema : Schema) (client : Client) (fields : List Bytes) (servers : List Server)
+    (defaultPort : Nat) (hf : fields.length ≤ 255) (hn : ∀ f ∈ fields, NulFree f)
+    (hnd : (schema.map (·.1)).Nodup) (hwt : ∀ s ∈ servers, WellTyped schema s.info)
+    (hip : ∀ s ∈ servers, s.ip.toBytes ≠ lastServerMarker) :
+    sdkDecode (packServers schema client fields servers) defaultPort =
+      some (expectedList schema client fields servers) := by
+  rw [sdkDecode_packServers schema client fields servers defaultPort hf hn hip,
+    filterMap_prepare_wellTyped schema servers hwt, List.map_map]
+  unfold expectedList
+  congr 2
+  apply List.map_congr_left
+  intro s _
+  exact entryOfPrepared_renderAll schema fields s hnd
+
+/-- **The parser is total**: for any configuration whose minimum length covers the nine skipped
+bytes, no input makes `NewRequest` index or slice out of range (`panic`), and the field loop
+always terminates within its fuel (`hang`). -/
+theorem parse_total_cfg (cfg : Cfg) (h9 : 9 ≤ cfg.minLen) (data : Bytes) :
+    parseRequest cfg data ≠ .panic ∧ parseRequest cfg data ≠ .hang := by
+  have h := parseRequest_safe cfg h9 data
+  constructor <;> intro e <;> rw [e] at h <;> exact h
+
+/-- `parse_total_cfg` for the constants in the source -/
+theorem parse_total (data : Bytes) :
+    parseRequest Cfg.facts data ≠ .panic ∧ parseRequest Cfg.facts data ≠ .hang :=
+  parse_total_cfg Cfg.facts facts_ok.1 data
+
+/-- `binutils.ConsumeString` never panics and is the structural scanner `consumeS` -/
+theorem consumeString_total (data : Bytes) (delim : UInt8) : consumeString data delim = .ok (consumeS delim data) :=
+  consumeString_eq data delim
 
 end Swat4.C01
